@@ -400,6 +400,9 @@ def check3cmd(case, acc, tmp):
                 continue
         ids = m.ids(ax)
         covers = all(i in exp for i in ids) and len({tuple(sorted(exp[i])) for i in ids}) == 1
+        # an HDF5 category is one homogeneous dataset: text and numbers in one column are written as text (outside
+        # C01's domain), so the HDF5 form is only demanded where every category is all-text or all-numeric
+        covers = covers and all(len({isinstance(exp[i][k], str) for i in ids}) == 1 for k in exp[ids[0]])
         for as_json in ((True, False) if covers and not hdr else (True,)):
             dst = os.path.join(tmp, 'am_out.biom')
             if os.path.exists(dst):
@@ -461,7 +464,8 @@ def run(run):
                   'clause:add-metadata-command-json', 'clause:add-metadata-command-hdf5'] +
             ['op:' + o for o in META_OPS])
     run.assumptions.append('HDF5 output of add-metadata only for mappings that cover every id with the same '
-                           'categories (the writer refuses differing category sets: outside C01\'s domain)')
+                           'categories, each all-text or all-numeric (the writer refuses differing category sets and writes a mixed '
+                           'column as text: outside C01\'s domain)')
 
 
 def replay(case):
